@@ -24,3 +24,25 @@ package utils
 //@ func InheritTracingInfo
 //@   ensures[C17.inherit-root] root(result) == root(newCtx)
 //@   ensures[C17.inherit-nonnil] newCtx != nil ==> result != nil
+
+//@ # Unique: sorts s and moves one copy of every distinct value to the front; getVal must read s
+//@ func Unique
+//@   requires getVal != nil
+//@   param getVal(i) = s[i]
+//@   modifies s[_]
+//@   ensures[C21.unique-range]  0 <= j && j <= len(s)
+//@   ensures[C21.unique-strict] forall a, b :: 0 <= a && a < b && b < j ==> s[a] < s[b]
+//@   ensures[C21.unique-set]    (forall a :: 0 <= a && a < j ==> exists b :: 0 <= b && b < len(s) && old(s[b]) == s[a])
+//@                           && (forall b :: 0 <= b && b < len(s) ==> exists a :: 0 <= a && a < j && s[a] == old(s[b]))
+//@   loop 1:
+//@     modifies s[_]
+//@     invariant 0 <= j && j <= i && i <= len(s) && (i >= 1 ==> j >= 1)
+//@     invariant forall a, b :: 0 <= a && a < b && b < len(s) ==> pre(s[a]) <= pre(s[b])
+//@     invariant forall a :: i <= a && a < len(s) ==> s[a] == pre(s[a])
+//@     invariant forall a, b :: 0 <= a && a < b && b < j ==> s[a] < s[b]
+//@     invariant j >= 1 ==> let k == i - 1 :: lastVal == s[j-1] && s[j-1] == pre(s[k])
+//@     invariant forall a :: 0 <= a && a < j ==> exists b :: 0 <= b && b < i && pre(s[b]) == s[a]
+//@     invariant forall b :: 0 <= b && b < i ==> exists a :: 0 <= a && a < j && s[a] == pre(s[b])
+//@     invariant forall a :: 0 <= a && a < len(s) ==> exists b :: 0 <= b && b < len(s) && old(s[b]) == pre(s[a])
+//@     invariant forall b :: 0 <= b && b < len(s) ==> exists a :: 0 <= a && a < len(s) && pre(s[a]) == old(s[b])
+//@     decreases len(s) - i
